@@ -155,6 +155,40 @@ Theorem C09_history_equal_iff_denote : forall ha hb a b,
 Proof. exact history_equal_iff_denote. Qed.
 Print Assumptions C09_history_equal_iff_denote.
 
+(* ---- the copy is disjoint from the source in everything it stores, member names included ---- *)
+(* [mt]: trees whose nodes carry addresses and whose member names carry their storage
+   identity: a strdup owned by the entry ([KOwn addr]) or memory of the caller that the entry
+   only points to ([KBorrowed buf], JSON_C_OBJECT_ADD_CONSTANT_KEY) *)
+Theorem C09_deep_copy_disjoint_keys : forall t n,
+  (forall i, In i (mem_addrs t) -> i < n) ->
+  (forall i, In i (mem_addrs t) -> In i (mem_addrs (fst (mt_copy t n))) -> False) /\
+  (forall s, In s (key_stores t) -> In s (key_stores (fst (mt_copy t n))) -> False).
+Proof. exact deep_copy_disjoint_keys. Qed.
+Print Assumptions C09_deep_copy_disjoint_keys.
+
+Theorem C09_copy_owns_keys : forall t n,
+  Forall is_own (key_stores (fst (mt_copy t n))) /\ borrowed (fst (mt_copy t n)) = [].
+Proof. exact mt_copy_owns_keys. Qed.
+Print Assumptions C09_copy_owns_keys.
+
+Theorem C09_copy_keys_tree_shaped : forall t n, NoDup (mem_addrs (fst (mt_copy t n))).
+Proof. exact mt_copy_tree_shaped. Qed.
+Print Assumptions C09_copy_keys_tree_shaped.
+
+Theorem C09_copy_keys_erase : forall t n, jv_wf (mt_erase t) -> mt_erase (fst (mt_copy t n)) = mt_erase t.
+Proof. exact mt_copy_erase. Qed.
+Print Assumptions C09_copy_keys_erase.
+
+(* the caller overwriting / recycling / freeing any of its buffers: a tree that does not borrow
+   the buffer reads the same; the copy borrows none *)
+Theorem C09_key_buffer_frame : forall b x t, ~ In b (borrowed t) -> kbuf_write b x t = t.
+Proof. exact kbuf_write_frame. Qed.
+Print Assumptions C09_key_buffer_frame.
+
+Theorem C09_copy_key_frame : forall t n b x, kbuf_write b x (fst (mt_copy t n)) = fst (mt_copy t n).
+Proof. exact mt_copy_key_frame. Qed.
+Print Assumptions C09_copy_key_frame.
+
 (* ---- process-wide settings ---- *)
 (* json_global_set_string_hash / json_c_set_serialization_double_format calls inserted at any
    point of the histories change neither the trees reached nor (the settings being a
@@ -266,3 +300,13 @@ Theorem C09_nonvacuous_callback :
   (exists h, deep_copy_cb_root ex_env_fail ex_a = (None, h) /\ zlen h = 4) /\
   fst (deep_copy_cb_root (mk_env (fun _ _ => CbCreated) (fun _ c => match c_src c with JArr _ => true | _ => false end)) ex_a) = None.
 Proof. exact ex_cb. Qed.
+
+Theorem C09_nonvacuous_keys :
+  let cpy := fst (mt_copy ex_msrc 10) in
+  mt_erase cpy = mt_erase ex_msrc /\
+  key_stores ex_msrc = [KBorrowed 0; KBorrowed 1; KOwn 3; KOwn 5] /\
+  key_stores cpy = [KOwn 12; KOwn 16; KOwn 15; KOwn 17] /\
+  borrowed ex_msrc = [0; 1] /\ borrowed cpy = [] /\
+  mt_erase (kbuf_write 0 [90] ex_msrc) <> mt_erase ex_msrc /\
+  kbuf_write 0 [90] cpy = cpy.
+Proof. exact ex_keys. Qed.
